@@ -29,7 +29,8 @@ type recEvent struct {
 	What string       `json:"what,omitempty"` // rebind: "f" | "c", with Name and Kind
 	Name string       `json:"name,omitempty"`
 	Kind string       `json:"kind,omitempty"`
-	T0   int          `json:"t0"` // monotonic microseconds since the start of the case (0 where timing is not observed)
+	Node string       `json:"node,omitempty"` // snaphand
+	T0   int          `json:"t0"`             // monotonic microseconds since the start of the case (0 where timing is not observed)
 	T1   int          `json:"t1"`
 	// harness-only (ignored by the trace specification)
 	Path   int            `json:"path,omitempty"`
@@ -237,6 +238,19 @@ func (rc *recorder) driveSnap(ci int, c *Case, path int) error {
 			}
 		case x < 8: // Snapshot
 			if len(snaps) >= 6 {
+				continue
+			}
+			if rnd.Intn(5) == 0 {
+				// a snapshot written by hand: the node only (nil maps), or with empty maps
+				node := c.Nodes[rnd.Intn(len(c.Nodes))].Title
+				s := &ysgo.Snapshot{CurrentNode: node}
+				if rnd.Intn(2) == 0 {
+					s.Variables, s.VisitedNodes = map[string]variable.Value{}, map[string]int{}
+				}
+				snaps = append(snaps, handle{s, r})
+				if err := rc.emit(recEvent{Ev: "snaphand", ID: c.ID, H: len(snaps), Node: node}); err != nil {
+					return err
+				}
 				continue
 			}
 			var s *ysgo.Snapshot
